@@ -163,35 +163,35 @@ Proof. intros H. apply fn_ok_calls. apply source_fn_ok. exact H. Qed.
 (* the headline statement, about the translated code *)
 Lemma source_exactly_once k f :
   In (k, f) source_fns ->
-  forall sc2 ops r snap is_str perm sc s' log rz order,
+  forall scs ops r snap is_str perm sc s' log rz order,
     lookup r (sets (reached ops)) = Some snap ->
-    run_fn (ex1 sc2) sc f is_str perm snap (reached ops) = Some (s', log, rz) ->
+    run_fn (exN scs) sc f is_str perm snap (reached ops) = Some (s', log, rz) ->
     visit_order k perm snap = Some order ->
     NoDup log /\
     (forall a, In a log <->
-               exists s1, turn_state (ex1 sc2) sc order (push_frame (reached ops)) a = Some s1 /\ alive s1 a = true) /\
+               exists s1, turn_state (exN scs) sc order (push_frame (reached ops)) a = Some s1 /\ alive s1 a = true) /\
     (forall a, In a log -> In a snap /\ a < next_id (reached ops)).
 Proof.
-  intros H sc2 ops r snap is_str perm sc s' log rz order Hl Hr Ho.
+  intros H scs ops r snap is_str perm sc s' log rz order Hl Hr Ho.
   rewrite (source_is_activation k f H) in Hr. repeat split.
-  - eapply (reached_once (ex1 sc2)); eassumption.
-  - apply (reached_exact (ex1 sc2) ops k r perm sc snap s' log rz order Hl Hr Ho a).
-  - apply (reached_exact (ex1 sc2) ops k r perm sc snap s' log rz order Hl Hr Ho a).
-  - apply (proj1 (reached_no_new (ex1 sc2) (good_ex1 sc2) ops k r perm sc snap s' log rz Hl Hr) a H0).
-  - apply (proj1 (reached_no_new (ex1 sc2) (good_ex1 sc2) ops k r perm sc snap s' log rz Hl Hr) a H0).
+  - eapply (reached_once (exN scs)); eassumption.
+  - apply (reached_exact (exN scs) ops k r perm sc snap s' log rz order Hl Hr Ho a).
+  - apply (reached_exact (exN scs) ops k r perm sc snap s' log rz order Hl Hr Ho a).
+  - apply (proj1 (reached_no_new (exN scs) (good_exN scs) ops k r perm sc snap s' log rz Hl Hr) a H0).
+  - apply (proj1 (reached_no_new (exN scs) (good_exN scs) ops k r perm sc snap s' log rz Hl Hr) a H0).
 Qed.
 
 Lemma source_all_called k f :
   In (k, f) source_fns ->
-  forall sc2 ops r snap is_str perm sc s' log rz order,
+  forall scs ops r snap is_str perm sc s' log rz order,
     lookup r (sets (reached ops)) = Some snap -> (forall a, In a snap -> In a (reg (reached ops))) ->
-    run_fn (ex1 sc2) sc f is_str perm snap (reached ops) = Some (s', log, rz) ->
+    run_fn (exN scs) sc f is_str perm snap (reached ops) = Some (s', log, rz) ->
     visit_order k perm snap = Some order ->
     (forall a, spares sc a) -> calm sc -> log = order /\ rz = false.
 Proof.
-  intros H sc2 ops r snap is_str perm sc s' log rz order Hl Hreg Hr Ho.
+  intros H scs ops r snap is_str perm sc s' log rz order Hl Hreg Hr Ho.
   rewrite (source_is_activation k f H) in Hr.
-  apply (reached_all_called (ex1 sc2) (good_ex1 sc2) ops k r perm sc snap s' log rz order Hl Hreg Hr Ho).
+  apply (reached_all_called (exN scs) (good_exN scs) ops k r perm sc snap s' log rz order Hl Hreg Hr Ho).
 Qed.
 
 (* the registry statements in the order extracted from mesa/model.py are the model's create1 / deregister *)
@@ -200,3 +200,50 @@ Lemma source_registry :
   (forall a s, Inv s -> BT s -> dereg_run a gen_deregister_order s = deregister a s) /\
   (forall c keep s, Inv s -> create_stmts gen_register_order c keep s = create1 c keep s).
 Proof. repeat split; [exact dereg_run_bridge|exact create_stmts_bridge]. Qed.
+
+(* ------------------------------------------------------------------ GroupBy.do / map: the group loop *)
+Lemma gvisit_bridge ex k sc inner inner_is_str :
+  fn_ok k inner = true ->
+  forall gs perms s,
+    gvisit true (fun perm snap s' => run_fn ex sc inner inner_is_str perm snap s') gs perms s
+    = visit_groups ex k sc gs perms s.
+Proof.
+  intros Hok. induction gs as [|[key g] gs IH]; intros perms s; [reflexivity|].
+  cbn [gvisit visit_groups]. rewrite (run_fn_bridge ex k inner Hok).
+  destruct (activate ex k (hd [] perms) sc (filter (alive s) g) s) as [[[s1 log1] rz1]|]; [|reflexivity].
+  destruct rz1; [reflexivity|]. rewrite IH. reflexivity.
+Qed.
+
+Lemma gfn_ok_facts is_map gf :
+  gfn_ok is_map gf = true ->
+  forall is_str, al_src (pick gf is_str) = SrcGroups /\ al_guard (pick gf is_str) true = true.
+Proof.
+  unfold gfn_ok. rewrite !andb_true_iff. intros [[Ht Hf] _] is_str.
+  assert (gloop_ok is_str (pick gf is_str) = true) as Hl by (destruct is_str; assumption).
+  unfold gloop_ok in Hl. rewrite !andb_true_iff in Hl. destruct Hl as [[[[H1 H2] _] _] _].
+  split; [destruct (al_src (pick gf is_str)); try discriminate; reflexivity|exact H2].
+Qed.
+
+(* the translated GroupBy.do / map, with `method` naming a translated AgentSet method, run on the model
+   state, is the model's visit_groups *)
+Lemma run_gfn_bridge ex k sc is_map gf inner :
+  gfn_ok is_map gf = true -> fn_ok k inner = true ->
+  forall is_str inner_is_str gs perms s,
+    run_gfn ex sc gf is_str inner inner_is_str gs perms s = visit_groups ex k sc gs perms s.
+Proof.
+  intros Hg Hi is_str inner_is_str gs perms s. unfold run_gfn.
+  destruct (gfn_ok_facts is_map gf Hg is_str) as [-> ->].
+  apply gvisit_bridge. exact Hi.
+Qed.
+
+Lemma source_groupby_is_visit_groups k f :
+  In (k, f) source_fns ->
+  forall ex sc is_str inner_is_str gs perms s,
+    run_gfn ex sc gen_groupby_do_fn is_str f inner_is_str gs perms s = visit_groups ex k sc gs perms s /\
+    run_gfn ex sc gen_groupby_map_fn is_str f inner_is_str gs perms s = visit_groups ex k sc gs perms s.
+Proof.
+  intros H ex sc is_str inner_is_str gs perms s.
+  pose proof source_groupby_ok as Hg. rewrite !andb_true_iff in Hg. destruct Hg as [[Hd Hm] _].
+  split; [apply (run_gfn_bridge ex k sc false)|apply (run_gfn_bridge ex k sc true)];
+    try assumption; apply source_fn_ok; exact H.
+Qed.
